@@ -9,6 +9,8 @@ From Verif Require Model.PyMini Model.PrimsApi Gen.SrcNaming Proofs.SrcNaming.
 From Verif Require Model.PrimsPrelude Gen.SrcPrelude Proofs.SrcPrelude.
 (* group `targets` (bld-compiler3): the wildcard expansion of Compiler._compile_targets, see the end of this file *)
 From Verif Require Model.Compile Model.PrimsCompiler Model.PrimsSelect Gen.SrcTargets Proofs.SrcTargets.
+(* the loop of Compiler._compile_targets (bld-compiler4), see the end of this file *)
+From Verif Require Proofs.SrcTargetsLoop.
 Open Scope Z_scope.
 
 Theorem C07_name_rule : forall t,
@@ -200,4 +202,78 @@ Example C07_source_wildcard_example :
     (nth 0 (f_body Verif.Gen.SrcTargets.compile_targets) SPass)
   = Ok (Next {| locals := [("self", PSelf); ("targets", PList [ST.enc_wtarget "date"; ST.enc_wtarget "account"])]%string;
                 fields := [("table", tb)]%string |}).
+Proof. vm_compute. reflexivity. Qed.
+
+(* ---- bld-compiler4: the LOOP of Compiler._compile_targets (the rest of the translated body, Gen/SrcTargets.v).  For
+   EVERY list of parsed targets: each expression is compiled in order - the table self._compile leaves behind is the
+   one the next target is compiled against -, the target is named by get_target_name (C07_source_target_name), flagged
+   by is_aggregate and appended; then the two aggregate checks of Compile.check_aggregates; the first failing target
+   decides the error; the compiled targets are returned in the order of the parsed ones, ONE per parsed target
+   (STL.p_targets).  get_target_name / is_aggregate / get_columns_and_aggregates are opaque callables assumed to return
+   the model's values (tied separately); [kids a] are the references of the children of node a. ---- *)
+Module STL := Verif.Proofs.SrcTargetsLoop.
+Module CC := Verif.Model.Compile.
+Theorem C07_source_compile_targets :
+  forall (call_ref : nat -> list pv -> pv) (tbl : nat -> CC.cnode) (kids : nat -> list nat)
+         (mro : string -> list string) (msg : string -> list pv -> pv) (updatable : pv -> bool)
+         (upd : pv -> pv -> pv -> pv -> pv) (kC : nat) (rest : env)
+         (rc : pv -> pv -> CC.result (pv * nat) CC.cerr),
+  (forall t x, call_ref kC [t; x] =
+               STL.enc_res (fun p => PTuple [fst p; Verif.Model.PrimsCompiler.nref (snd p)]) (rc t x)) ->
+  forall nm : pv -> string,
+  (forall tg, call_ref STL.kTN [tg] = PStr (nm tg)) ->
+  (forall c, call_ref STL.kAG [Verif.Model.PrimsCompiler.nref c] = PBool (CC.has_agg (tbl c))) ->
+  forall colsf aggsf : nat -> list nat,
+  (forall i, call_ref STL.kCA [Verif.Model.PrimsCompiler.nref i] =
+             PTuple [PList (map Verif.Model.PrimsCompiler.nref (colsf i));
+                     PList (map Verif.Model.PrimsCompiler.nref (aggsf i))]) ->
+  (forall i, map tbl (colsf i) = fst (CC.cols_aggs (tbl i))) ->
+  (forall i, map tbl (aggsf i) = snd (CC.cols_aggs (tbl i))) ->
+  (forall a, map tbl (kids a) = CC.children (tbl a)) ->
+  forall (l : list (pv * pv)) (t0 : pv),
+  call_method call_ref (Verif.Model.PrimsSelect.prim_select tbl kids mro msg updatable upd)
+    Verif.Gen.SrcTargets.compile_targets (STL.flds kC rest t0) [PList (map STL.TGT l)] =
+  match STL.p_targets tbl rc nm t0 l with
+  | CC.Ok (t', pts) => Ok (STL.flds kC rest t', Verif.Model.PrimsSelect.enc_targets pts)
+  | CC.Err e => Exc (Verif.Model.PrimsCompiler.CompErr e)
+  end.
+Proof. exact STL.compile_targets_src. Qed.
+Print Assumptions C07_source_compile_targets.
+
+(* ... and that is the model's target compilation (Compile.compile_target per target, the `go` of the SELECT clause in
+   Compile.comp), when get_target_name returns Compile.target_name and self._compile the model's node: the names the
+   result description shows (C07_description_names) are the names fixed here, in target order *)
+Theorem C07_source_compile_targets_model :
+  forall (tbl : nat -> CC.cnode) (rc : pv -> pv -> CC.result (pv * nat) CC.cerr) (nm : pv -> string)
+         (node_of : pv -> CC.rnode),
+  (forall t x, match rc t x with
+               | CC.Ok (_, i) => node_of x = CC.Ok (tbl i)
+               | CC.Err e => node_of x = CC.Err e
+               end) ->
+  forall (l : list (pv * pv)) (ml : list (CC.expr * option string * string)),
+  Forall2 (fun x m => match m with (ex, al, tx) => STL.tname nm x = CC.target_name ex al tx end) l ml ->
+  forall t, match STL.p_targets tbl rc nm t l with
+            | CC.Ok (_, pts) => STL.m_targets node_of l ml = CC.Ok (map (STL.T tbl) pts)
+            | CC.Err e => STL.m_targets node_of l ml = CC.Err e
+            end.
+Proof. exact STL.p_targets_model. Qed.
+Print Assumptions C07_source_compile_targets_model.
+
+(* the hypotheses are satisfiable and the loop really runs: SELECT a, b over two columns *)
+Example C07_source_compile_targets_example :
+  let tbl := fun i : nat => if Nat.eqb i 0 then CC.NCol "a" "int" else CC.NCol "b" "str" in
+  let call_ref := fun (k : nat) (args : list pv) =>
+    match k, args with
+    | 9%nat, [t; PV (VInt z)] => PTuple [t; Verif.Model.PrimsCompiler.nref (Z.to_nat z)]
+    | 0%nat, _ => PStr "n"
+    | 1%nat, _ => PBool false
+    | 2%nat, [x] => PTuple [PList [x]; PList []]
+    | _, _ => PNone
+    end in
+  call_method call_ref
+    (Verif.Model.PrimsSelect.prim_select tbl (fun _ => []) (fun _ => []) (fun _ _ => PNone) (fun _ => false)
+       (fun _ _ _ _ => PNone))
+    Verif.Gen.SrcTargets.compile_targets (STL.flds 9 [] PNone) [PList (map STL.TGT [(PInt 0, PNone); (PInt 1, PNone)])]
+  = Ok (STL.flds 9 [] PNone,
+        Verif.Model.PrimsSelect.enc_targets [(0%nat, Some "n", false); (1%nat, Some "n", false)])%string.
 Proof. vm_compute. reflexivity. Qed.
